@@ -92,6 +92,7 @@ def p2wpkhEncode (hrp : List Char) (pub : Bytes) : R (List Char) := do
 def p2wpkhDecode (hrp : List Char) (addr : List Char) : R Bytes := do
   let (v, dec) ← ckToValue (segwitDecode asciiCase hrp addr)
   if v ≠ 0 then throw .value
+  validateLength dec 20
   pure dec
 
 def tapTweakTag : Bytes :=
@@ -361,7 +362,8 @@ def nanoDecode (pfx : List Char) (addr : List Char) : R Bytes := do
   let a ← removePrefix addr pfx
   let dec ← base32Decode ("1111".toList ++ a) (some nanoAlphabet)
   validateLength dec 40
-  let (k, ck) := splitCkEnd (dec.drop 3) 5
+  let body ← removePrefix dec [0, 0, 0]
+  let (k, ck) := splitCkEnd body 5
   if ck ≠ (blake2b40 k).reverse then throw .value
   validatePubKey .ed25519Blake2b k
   pure k
@@ -400,7 +402,9 @@ def nimDecode (isDigitNonAscii : Char → Bool) (pfx : List Char) (addr : List C
   let ck := a.take 2
   let enc := a.drop 2
   if ck ≠ nimChecksum isDigitNonAscii enc then throw .value
-  base32Decode enc (some nimAlphabet)
+  let dec ← base32Decode enc (some nimAlphabet)
+  validateLength dec 20
+  pure dec
 
 /-! ### Bech32 of raw keys / hashes -/
 
@@ -446,13 +450,12 @@ def xmrAddrDecode (netVer : Bytes) (payId : Option Bytes) (addr : List Char) : R
   let (payload, ck) := splitCkEnd dec 4
   if ck ≠ (keccak256 payload).take 4 then throw .value
   let p ← removePrefix payload netVer
-  if p.length ≠ 64 then
+  match payId with
+  | none => validateLength p 64
+  | some pid =>
     validateLength p 72
-    match payId with
-    | some pid =>
-      if pid.length ≠ 8 then throw .value
-      if pid ≠ takeLast p 8 then throw .value
-    | none => throw .value
+    if pid.length ≠ 8 then throw .value
+    if pid ≠ takeLast p 8 then throw .value
   let s := p.take 32
   validatePubKey .ed25519Monero s
   let v := (p.drop 32).take 32
